@@ -253,7 +253,7 @@ def build_xv(ctx, msgs, jsons):
     from pybufrkit.decoder import Decoder
     from harness import xversion
     cat = xversion.Catalogue()
-    nf = 44 if ctx.tier == 'quick' else 160
+    nf = 40 if ctx.tier == 'quick' else 160
     fams, problems, stats = xversion.build_families(ctx.driver, ctx.rng('xv'), nf, cat=cat)
     for k, v in sorted(cat.summary().items()):
         if isinstance(v, dict):
@@ -987,11 +987,17 @@ def fails(mp, pool_path, limit, prefixes, final, ref):
     return [r['out'][-1] != ref for r in res]
 
 
+SHRINK_TRIALS = [int(os.environ.get('VERIF_C13_SHRINK', '360'))]     # trials left for this run (each is a history in a process of its own)
+
+
 def shrink(mp, pool_path, limit, prefix, final, ref, budget=120):
-    """delta debugging on the operations before the failing one (each trial in a fresh process)"""
+    """delta debugging on the operations before the failing one (each trial in a fresh process); the run as a whole
+    spends at most SHRINK_TRIALS trials, later failures are reported with the prefix as it is"""
     n = 2
     cur = list(prefix)
     used = 0
+    budget = min(budget, SHRINK_TRIALS[0])
+    SHRINK_TRIALS[0] -= budget
     while len(cur) >= 1 and used < budget:
         size = max(1, len(cur) // n)
         chunks = [cur[i:i + size] for i in range(0, len(cur), size)]
@@ -1144,7 +1150,7 @@ def run(ctx):
         gpool = dict(pool, paths={m: prng.sample(ps, min(npaths, len(ps))) for m, ps in sorted(pool['paths'].items())},
                      cfgs={x['name']: (list(CFGS) if x['cls'] == 'synthetic' and 'hex' in x else prng.sample(CFGS, ncfg))
                            for x in pool['msgs'] + pool['jsons']})
-        nh = 60 if ctx.tier == 'quick' else 600
+        nh = 52 if ctx.tier == 'quick' else 600
         for i in range(nh):
             limit = rng.choice([1, 2, 3]) if (ctx.tier == 'quick' or i % 10) else 50
             n = rng.randint(20, 200)
@@ -1162,7 +1168,7 @@ def run(ctx):
         # (c) cross-version histories: one Decoder / Encoder / renderer set over families that use the same descriptors
         #     under table groups defining them differently
         xrng = ctx.rng('xv-histories')
-        nx = 40 if ctx.tier == 'quick' else 300
+        nx = 36 if ctx.tier == 'quick' else 300
         for i in range(nx if gpool['xv'] else 0):
             limit = xrng.choice([1, 2, 3, 3, 50])
             ops = gen_xv_history(xrng, gpool, xrng.choice([0, 0, 12, 30]), versions, heavy)
@@ -1172,7 +1178,7 @@ def run(ctx):
             kinds.append('cross-version')
         # (d) stream conversion: decode, render with kept renderer objects, drop, collect
         srng = ctx.rng('stream-histories')
-        ns = 24 if ctx.tier == 'quick' else 160
+        ns = 16 if ctx.tier == 'quick' else 160
         for i in range(ns if gpool['xv'] else 0):
             hists.append((srng.choice([1, 1, 2, 50]), gen_stream_history(srng, gpool, srng.randint(12, 40))))
             kinds.append('stream')
